@@ -2,6 +2,7 @@ package main
 
 import (
 	"bufio"
+	"crypto/sha256"
 	"flag"
 	"fmt"
 	"io"
@@ -97,6 +98,11 @@ func (r *Runner) Step(b Block) BlockOut {
 	for i, t := range out.Txs {
 		r.emit(fmt.Sprintf("TXR %d %s", i, t.Class()))
 	}
+	if out.RawResp != nil {
+		if bz, err := out.RawResp.Marshal(); err == nil {
+			r.emit(fmt.Sprintf("RESP %x", sha256.Sum256(bz)))
+		}
+	}
 	r.emit(r.N.updStr(out.Updates))
 	prev := r.Sets[h+1]
 	ns, err := applyToCometSet(prev, out.Updates)
@@ -172,35 +178,45 @@ func genHistory(w *World, seed uint64, cfg GenCfg, ops io.Writer, obs io.Writer)
 		h := r.N.Height + 1
 		s := r.N.Snap()
 		b := Block{DtNs: 1_000_000_000}
-		// time jumps
+		// time jumps (never across an unbonding period while a validator that just left the set may
+		// still be voting: x/slashing would meet a vote of a deleted record, which only an
+		// unrealistically short unbonding time makes possible)
 		if g.R.P(8) {
 			b.DtNs = gen.JailNs + 1_000_000_000
 		}
-		if g.R.P(6) && h > g.lastUnbondAt+3 {
+		if g.R.P(6) && h > s.MaxUbHeight+3 && h > g.lastUnbondAt+3 {
 			b.DtNs = gen.UnbondNs + 1_000_000_000
 			if gen.UnbondNs > 1_000_000_000_000 && !g.R.P(25) {
 				b.DtNs = 1_000_000_000
 			}
 		}
-		// downtime plan
-		if g.downLeft == 0 {
-			g.downKey = -1
-			if g.R.P(14) {
-				if set := r.Sets[h-1]; set != nil && len(set.Validators) > 1 {
-					v := set.Validators[g.R.N(len(set.Validators))]
-					g.downKey = w.KeyByConsAddr(v.Address)
-					g.downLeft = 3 + g.R.N(3)
+		if cfg.Restarts && g.R.P(10) && h > 1 {
+			b.Restart = true
+		}
+		// downtime plan (only while at least three validators are active, so that jailing never
+		// empties the set by itself)
+		absent := map[int]bool{}
+		if cfg.Mode != "calm" {
+			if g.downLeft == 0 {
+				g.downKey = -1
+				if g.R.P(14) && s.NBonded >= 3 {
+					if set := r.Sets[h-1]; set != nil && len(set.Validators) > 2 {
+						v := set.Validators[g.R.N(len(set.Validators))]
+						g.downKey = w.KeyByConsAddr(v.Address)
+						g.downLeft = 3 + g.R.N(3)
+					}
 				}
 			}
-		}
-		absent := map[int]bool{}
-		if g.downKey >= 0 {
-			absent[g.downKey] = true
-			g.downLeft--
-		}
-		if g.R.P(5) {
-			if set := r.Sets[h-1]; set != nil && len(set.Validators) > 0 {
-				absent[w.KeyByConsAddr(set.Validators[g.R.N(len(set.Validators))].Address)] = true
+			if g.downKey >= 0 {
+				if s.NBonded >= 3 {
+					absent[g.downKey] = true
+				}
+				g.downLeft--
+			}
+			if g.R.P(5) && s.NBonded >= 3 {
+				if set := r.Sets[h-1]; set != nil && len(set.Validators) > 2 {
+					absent[w.KeyByConsAddr(set.Validators[g.R.N(len(set.Validators))].Address)] = true
+				}
 			}
 		}
 		b.Votes = r.VotesFor(h, absent)
@@ -208,8 +224,15 @@ func genHistory(w *World, seed uint64, cfg GenCfg, ops io.Writer, obs io.Writer)
 		if h == 1 {
 			ntx = 0 // nothing is committed before block 1: accounts cannot be looked up for signing
 		}
+		wildSigner := map[int]bool{}
 		for j := 0; j < ntx; j++ {
 			tx := g.GenTx(s, h)
+			if wildSigner[tx.Signer] {
+				continue // a signer whose earlier tx has an unmodelled outcome signs nothing more in this block
+			}
+			if hasKind(tx.Msgs, "EDIT") {
+				wildSigner[tx.Signer] = true
+			}
 			b.Txs = append(b.Txs, tx)
 			for _, m := range tx.Msgs {
 				if m.Kind == "REMOVE" || m.Kind == "PARAMS" {
@@ -228,6 +251,15 @@ func genHistory(w *World, seed uint64, cfg GenCfg, ops io.Writer, obs io.Writer)
 	fmt.Fprintln(ops, "END")
 	fmt.Fprintln(obs, "END")
 	return blocks, r.Halt
+}
+
+func hasKind(ms []Msg, k string) bool {
+	for _, m := range ms {
+		if m.Kind == k || hasKind(m.Sub, k) {
+			return true
+		}
+	}
+	return false
 }
 
 func anyAbsent(vs []Vote) bool {
@@ -257,7 +289,8 @@ func main() {
 		seed := fs.Uint64("seed", 1, "seed")
 		n := fs.Int("n", 10, "histories")
 		maxBlocks := fs.Int("blocks", 25, "max blocks per history")
-		mode := fs.String("mode", "wild", "wild|envelope")
+		mode := fs.String("mode", "wild", "wild|envelope|calm")
+		restarts := fs.Bool("restarts", false, "restart the node before random blocks")
 		opsPath := fs.String("ops", "ops.txt", "ops output")
 		obsPath := fs.String("obs", "obs.txt", "obs output")
 		first := fs.Int("first", 0, "index of first history")
@@ -268,7 +301,7 @@ func main() {
 		tb, th := 0, 0
 		for i := *first; i < *first+*n; i++ {
 			fmt.Fprintf(ow, "# history %d seed %d mode %s\n", i, *seed, *mode)
-			b, h := genHistory(w, *seed*1000003+uint64(i)*7919+modeSalt(*mode), GenCfg{Mode: *mode, MaxBlocks: *maxBlocks}, ow, bw)
+			b, h := genHistory(w, *seed*1000003+uint64(i)*7919+modeSalt(*mode), GenCfg{Mode: *mode, MaxBlocks: *maxBlocks, Restarts: *restarts}, ow, bw)
 			tb += b
 			if h {
 				th++
@@ -310,6 +343,9 @@ func main() {
 func modeSalt(m string) uint64 {
 	if m == "envelope" {
 		return 500009
+	}
+	if m == "calm" {
+		return 700001
 	}
 	return 0
 }
